@@ -134,6 +134,17 @@ theorem bm_corrects_t1 (c : BchInst) (hc : c ∈ Generated.C03B.instances) (hd :
   have f := BCHBound.facts_of_ok c (C03.bch_ok c hc)
   exact roundtrip c.G c.R f.hunit msg (by rwa [f.hGl])
 
+/-- **double-error-correcting regime (t = 2), every certified BCH instance with δ ≥ 5 — every length, message, pattern of weight ≤ 2**:
+the recursion is evaluated symbolically on syndromes with S₂ = S₁² (σ = 1 + S₁x + ((S₃ + S₁³)/S₁)x², or 1 + S₁x when S₃ = S₁³), the
+characteristic-2 identities a³ + b³ + (a+b)³ = ab(a+b) and (a+b)^(2^m-1) = 1 turn the last coefficient into ab, the locator factors as
+(1 + ax)(1 + bx), and the root search returns exactly the two error positions -/
+theorem bm_corrects_t2 (c : BchInst) (hc : c ∈ Generated.C03B.instances) (hd : 4 < c.delta) (msg e : Nat) (hm : msg < 2 ^ c.k)
+    (he : e < 2 ^ c.n) (hw : weight c.n e ≤ 2) :
+    invEncode c.R (Kaira.BM.correct c.P c.m 2 c.n (encode c.G msg ^^^ e)) = msg := by
+  rw [BMProofs.bm_corrects_t2 c (C03.bch_ok c hc) hd msg e he hw]
+  have f := BCHBound.facts_of_ok c (C03.bch_ok c hc)
+  exact roundtrip c.G c.R f.hunit msg (by rwa [f.hGl])
+
 /-- code words are left untouched for every `t` within the design distance -/
 theorem bm_no_error (c : BchInst) (hc : c ∈ Generated.C03B.instances) (t : Nat) (ht : 2 * t < c.delta) (msg : Nat) :
     Kaira.BM.correct c.P c.m t c.n (encode c.G msg) = encode c.G msg :=
@@ -174,6 +185,7 @@ theorem reed_instances_in_catalogue : ∀ c ∈ Generated.C02R.instances, ∃ d 
 
 /-! ## non-vacuity -/
 example : ∃ c ∈ Generated.C02R.instances, c.n = 32 ∧ c.t = 3 := by decide +kernel
+example : ∃ c ∈ Generated.C03B.instances, 4 < c.delta ∧ c.n = 63 := by decide +kernel
 example : ∃ c ∈ Generated.C03B.instances, bmSmall c = true ∧ c.n = 15 ∧ c.delta = 3 := by decide +kernel
 example : hammingInverse [0b011, 0b101, 0b110, 0b111, 0b001, 0b010, 0b100] [0, 1, 2, 3]
     (encode [0b0110001, 0b1010010, 0b1100100, 0b1111000] 0b1011 ^^^ (1 <<< 5)) = 0b1011 := by decide +kernel
